@@ -795,13 +795,13 @@ def wf_inputs(secret, attrs):
     return True
 
 
-def oracle_get(ctx, reg, obs, ver, when):
+def oracle_get(ctx, reg, obs, ver, when, err=None):
     s = reg['secret']
     if obs == s or not wf_inputs(reg['secret'], reg['attrs']):
         return
     name = OT_OF[CLASS_OF_SECRET(s)].name
     witness = {'registered': jsonable(s), 'returned': jsonable(obs), 'attributes': jsonable(reg['attrs']), 'registered_under': reg['ver'],
-               'read_under': ver, 'when': when}
+               'read_under': ver, 'when': when, 'error': err}
     if obs is None:
         ctx.violation({'op': 'GET', 'otype': name, 'field': 'whole object', 'returned': 'failure'}, witness,
                       'Get fails for a stored %s' % name)
@@ -917,7 +917,7 @@ def run_history(ctx, rng, der, hid, n_events, big, forced=None):
                 events.append({'e': 'get', 'uid': uid, 'obs': obs, 'err': st.last_err, 'ver': ver})
                 ctx.count('get.%s' % CLASS_OF_SECRET(reg['secret']))
                 ctx.case_seen(('get', uid, hid, step), nontrivial=True)
-                oracle_get(ctx, reg, obs, ver, when)
+                oracle_get(ctx, reg, obs, ver, when, st.last_err)
                 if obs is not None and rng.random() < 0.3:
                     client_side_convert(ctx, st, ver, uid, obs)
             elif r < 0.75:
@@ -1000,8 +1000,8 @@ def run_history(ctx, rng, der, hid, n_events, big, forced=None):
         for uid in live:
             ver = rng.choice(VERS)
             obs = st.get(ver, uid)
-            events.append({'e': 'get', 'uid': uid, 'obs': obs})
-            oracle_get(ctx, regs[uid], obs, ver, 'history %d end' % hid)
+            events.append({'e': 'get', 'uid': uid, 'obs': obs, 'err': st.last_err, 'ver': ver})
+            oracle_get(ctx, regs[uid], obs, ver, 'history %d end' % hid, st.last_err)
             if uid in modified:
                 continue
             obs = st.attrs(ver, uid)
@@ -1039,7 +1039,7 @@ def scenario_history(ctx, der):
             for ver in ((1, 0), (1, 4), (2, 0)):
                 obs = st.get(ver, uid)
                 events.append({'e': 'get', 'uid': uid, 'obs': obs, 'ver': ver})
-                oracle_get(ctx, regs[uid], obs, ver, when)
+                oracle_get(ctx, regs[uid], obs, ver, when, st.last_err)
                 if uid in skip:
                     continue
                 obs = st.attrs(ver, uid)
@@ -1249,7 +1249,7 @@ def run(ctx):
     # corpus first (known findings + past disagreements), one history
     hists.append(run_history(ctx, ctx.subrng('corpus'), der, 0, 30, big, forced=corpus()))
     hists.append(scenario_history(ctx, der))
-    n_hist = 45 if quick else 400
+    n_hist = 110 if quick else 400
     for h in range(2, n_hist + 2):
         hists.append(run_history(ctx, rng, der, h, rng.randint(14, 30), big))
     crng = ctx.subrng('convert')
